@@ -97,6 +97,15 @@ def gen_case(sd, idx):
         # macroscopic counts (beyond 2^24 and 2^31): molecule counts are still exact integers in doubles
         big = r.choice([3e5, 1e6, 5e7])
         desc["state"] = [float(int(x * big)) for x in desc["state"]]
+        # the constants of higher-order directions are rescaled with the amounts (k ~ big^(1-order)), as for a larger volume:
+        # otherwise a third-order direction at 1e9 molecules has a propensity near 2^63 per step, the regime of the known
+        # tau-leap finding - also for a null reaction such as '3 B -> 3 B', which the step estimate does not see
+        def _sc(k_, order):
+            f_ = big ** (1 - order) if order >= 2 else 1.0
+            return {e_: v_ * f_ for e_, v_ in k_.items()} if isinstance(k_, dict) else k_ * f_
+        for x_ in desc["reactions"]:
+            x_["kf"] = _sc(x_["kf"], sum(x_["sub"].values()))
+            x_["kr"] = _sc(x_["kr"], sum(x_["prod"].values()))
     if r.random() < 0.25:
         desc["chemostats"] = gen.default_chemostats(desc)
         # add a flag on one entry of one species (then that species is excluded from the laws)
